@@ -4,6 +4,7 @@ import hashlib
 import io
 import itertools
 import json
+import sys
 import os
 import shutil
 
@@ -101,6 +102,11 @@ def generate(rng, tier):
             p["rpoints"] = 1
             if v["ff"] == 1 and i % 4:
                 v["ff"] = 3
+            if i % 4 == 2:      # a short settings file: only what differs from the defaults (no grid step, no point count; every other key absent or as drawn)
+                p["rpoints"] = p["rdelta"] = 0
+                if i % 8 == 2:
+                    p = {k: 0 for k in KEYS}
+                    p["rmax"] = p["rho"] = 1
         nfiles = rng.choice([1, 2])
         files = []
         for _f in range(nfiles):
@@ -335,7 +341,8 @@ def run_impl(pystog, case):
     else:
         kwargs = build_kwargs(case)
         kwargs["Files"] = file_infos(case, rel)
-        kwargs["Outputs"] = {"StemName": "cli"}
+        if not (sum(case["present"].values()) == 2):      # (the shortest settings files leave the stem name to its default too)
+            kwargs["Outputs"] = {"StemName": "cli"}
     calls = []
 
     class Rec(pystog.StoG):
@@ -377,7 +384,21 @@ def run_impl(pystog, case):
     os.chdir(da)
     try:
         with contextlib.redirect_stdout(io.StringIO()):
-            cli.pystog_cli(json.loads(json.dumps(kwargs)))
+            if case["mode"] == 1:
+                cli.pystog_cli(json.loads(json.dumps(kwargs)))
+            else:
+                # the JSON form as a user runs it: the settings are in a file named on the command line
+                cfg_path = os.path.join(base, "settings.json")
+                with open(cfg_path, "w") as fh:
+                    json.dump(kwargs, fh)
+                argv_old = sys.argv
+                sys.argv = ["pystog_cli", "--json", cfg_path]
+                try:
+                    cli.pystog_cli()
+                finally:
+                    sys.argv = argv_old
+    except SystemExit as e:
+        res["cli_error"] = "SystemExit: %s" % (e.code,)
     except Exception as e:
         res["cli_error"] = "%s: %s" % (type(e).__name__, str(e)[:200])
     finally:
